@@ -36,7 +36,7 @@ def gen_specs(rng: random.Random, tier: str, n: int) -> list[dict]:
     for i in range(n):
         seed = rng.getrandbits(48)
         big = tier == "thorough" and i % 400 == 0
-        specs.append(_gen.gen_spec(rng, seed, 7 if tier == "quick" else 12, constrained_bias=0.85, big=big))
+        specs.append(_gen.gen_spec(rng, seed, 7 if tier == "quick" else 12, constrained_bias=0.85, big=big, long=(i % 100 == 7)))
     return specs
 
 
